@@ -113,7 +113,7 @@ void h_plus(void) {
 }
 """ % dict(MAXLEN=maxlen, VALA=vala, VALB=valb, INR=inr, BODY=body)
     text = _fresh(fn)
-    spec = dict(unit="K22b_spvecfp_plus", site="K22b_spvecfp_plus", lang="c", source=rel + " (SpVecFP::operator+)", entry="h_plus", rewrites=log, timeout=2400,
+    spec = dict(unit="K22b_spvecfp_plus", site="K22b_spvecfp_plus", lang="c", source=rel + " (SpVecFP::operator+)", entry="h_plus", rewrites=log, timeout=5400,
                 dropped=["class wrapper; template header"], replay=_replay,
                 assumptions=["std::vector of boost tuples bound to index / value arrays; P = long; p below 2^15 (the argument does not use primality)"],
                 trusted=["cbmc 6.11 + DFCC, SAT back end (bounded quantifier instantiation)"])
